@@ -1,0 +1,298 @@
+//! Verification hooks. Only compiled with the cargo feature `verif-hooks` (off by default).
+//!
+//! Everything in here is add-only introspection used by an external verification harness:
+//! token dumps, canonical dumps of the parsed structures, the operator and function tables,
+//! and a reproducible / observable random number generator.
+#![allow(missing_docs, unreachable_pub)]
+
+use crate::expr::{BinOp, Expr, UnaryOp, FUNC_TABLE};
+use crate::lexer::TokenKind;
+use crate::stmt::{DataEntry, Stmt};
+use crate::{EntryIndex, TestCase};
+use logos::Logos;
+use std::cell::RefCell;
+use std::fmt::Write;
+
+/// One entry of the draw log
+#[derive(Debug, Clone, Copy, PartialEq, Eq)]
+pub enum RngEvent {
+    /// A value was drawn from the generator
+    Draw(i64),
+    /// The generator was re-seeded by `resetRandom`
+    Reset,
+    /// A new evaluation context (i.e. a new run) was created
+    NewContext,
+}
+
+thread_local! {
+    static SEED: RefCell<Option<u64>> = const { RefCell::new(None) };
+    static LOG: RefCell<Vec<RngEvent>> = const { RefCell::new(Vec::new()) };
+}
+
+/// Make every `EvalContext` created on this thread use `seed` (None: back to `getrandom`)
+pub fn set_seed(seed: Option<u64>) {
+    SEED.with(|s| *s.borrow_mut() = seed);
+}
+
+pub(crate) fn seed_override() -> Option<u64> {
+    LOG.with(|l| l.borrow_mut().push(RngEvent::NewContext));
+    SEED.with(|s| *s.borrow())
+}
+
+pub(crate) fn log_draw(value: i64) {
+    LOG.with(|l| l.borrow_mut().push(RngEvent::Draw(value)));
+}
+
+pub(crate) fn log_reset() {
+    LOG.with(|l| l.borrow_mut().push(RngEvent::Reset));
+}
+
+/// Take (and clear) this thread's draw log
+pub fn take_rng_log() -> Vec<RngEvent> {
+    LOG.with(|l| std::mem::take(&mut *l.borrow_mut()))
+}
+
+/// Tokens of the body lexer run over the whole of `input`: (kind, start, end)
+pub fn body_tokens(input: &str) -> Vec<(String, usize, usize)> {
+    let mut res = vec![];
+    let mut lex = TokenKind::lexer(input).spanned();
+    for (kind, span) in &mut lex {
+        let kind = match kind {
+            Ok(kind) => format!("{kind:?}"),
+            Err(_) => "Error".to_string(),
+        };
+        res.push((kind, span.start, span.end));
+    }
+    let span = lex.span();
+    res.push(("Eof".to_string(), span.start, span.end));
+    res
+}
+
+/// The tokens the parser sees for a complete test: header names with spans, the line counter
+/// after the header, and the body tokens produced after the header lexer morphed into the body lexer
+#[allow(clippy::type_complexity)]
+pub fn test_tokens(
+    input: &str,
+) -> Result<(Vec<(String, usize, usize)>, usize, Vec<(String, usize, usize)>), Vec<(usize, usize)>>
+{
+    crate::parser::verif_test_tokens(input)
+}
+
+/// (symbol, precedence) of every binary operator
+pub fn binop_table() -> Vec<(String, u8)> {
+    [
+        BinOp::Equal,
+        BinOp::NotEqual,
+        BinOp::GreaterThan,
+        BinOp::LessThan,
+        BinOp::GreaterThanOrEqual,
+        BinOp::LessThanOrEqual,
+        BinOp::Or,
+        BinOp::Xor,
+        BinOp::And,
+        BinOp::ShiftLeft,
+        BinOp::ShiftRight,
+        BinOp::Plus,
+        BinOp::Minus,
+        BinOp::Times,
+        BinOp::Divide,
+        BinOp::Reminder,
+    ]
+    .iter()
+    .map(|op| (format!("{op}"), op.precedence()))
+    .collect()
+}
+
+/// (name, number of arguments) of every function
+pub fn func_table() -> Vec<(String, usize)> {
+    ["random", "ite", "signExt"]
+        .iter()
+        .filter_map(|name| FUNC_TABLE.get(name))
+        .map(|e| (e.name.to_string(), e.number_of_args))
+        .collect()
+}
+
+fn binop_name(op: &BinOp) -> &'static str {
+    match op {
+        BinOp::Equal => "eq",
+        BinOp::NotEqual => "ne",
+        BinOp::GreaterThan => "gt",
+        BinOp::LessThan => "lt",
+        BinOp::GreaterThanOrEqual => "ge",
+        BinOp::LessThanOrEqual => "le",
+        BinOp::Or => "or",
+        BinOp::Xor => "xor",
+        BinOp::And => "and",
+        BinOp::ShiftLeft => "shl",
+        BinOp::ShiftRight => "shr",
+        BinOp::Plus => "add",
+        BinOp::Minus => "sub",
+        BinOp::Times => "mul",
+        BinOp::Divide => "div",
+        BinOp::Reminder => "rem",
+    }
+}
+
+fn hex(s: &str) -> String {
+    let mut out = String::from("h");
+    for b in s.bytes() {
+        let _ = write!(out, "{b:02x}");
+    }
+    out
+}
+
+pub(crate) fn dump_expr(e: &Expr, out: &mut String) {
+    match e {
+        Expr::Number(n) => {
+            let _ = write!(out, "(num {n})");
+        }
+        Expr::Variable(s) => {
+            let _ = write!(out, "(var {})", hex(s));
+        }
+        Expr::BinOp { op, left, right } => {
+            let _ = write!(out, "(bin {} ", binop_name(op));
+            dump_expr(left, out);
+            out.push(' ');
+            dump_expr(right, out);
+            out.push(')');
+        }
+        Expr::UnaryOp { op, expr } => {
+            let name = match op {
+                UnaryOp::Minus => "neg",
+                UnaryOp::LogicalNot => "lnot",
+                UnaryOp::BinaryNot => "bnot",
+            };
+            let _ = write!(out, "(un {name} ");
+            dump_expr(expr, out);
+            out.push(')');
+        }
+        Expr::Func { name, args } => {
+            let _ = write!(out, "(call {}", hex(name));
+            for a in args {
+                out.push(' ');
+                dump_expr(a, out);
+            }
+            out.push(')');
+        }
+    }
+}
+
+pub(crate) fn dump_stmts(stmts: &[Stmt], out: &mut String) {
+    out.push('[');
+    for (i, s) in stmts.iter().enumerate() {
+        if i > 0 {
+            out.push(' ');
+        }
+        match s {
+            Stmt::Let { name, expr } => {
+                let _ = write!(out, "(let {} ", hex(name));
+                dump_expr(expr, out);
+                out.push(')');
+            }
+            Stmt::DataRow { data, line } => {
+                let _ = write!(out, "(row {line}");
+                for d in data {
+                    out.push(' ');
+                    match d {
+                        DataEntry::Number(n) => {
+                            let _ = write!(out, "(n {n})");
+                        }
+                        DataEntry::Expr(e) => {
+                            out.push_str("(e ");
+                            dump_expr(e, out);
+                            out.push(')');
+                        }
+                        DataEntry::Bits { number, expr } => {
+                            let _ = write!(out, "(bits {number} ");
+                            dump_expr(expr, out);
+                            out.push(')');
+                        }
+                        DataEntry::X => out.push('X'),
+                        DataEntry::Z => out.push('Z'),
+                        DataEntry::C => out.push('C'),
+                    }
+                }
+                out.push(')');
+            }
+            Stmt::Loop {
+                variable,
+                max,
+                inner,
+            } => {
+                let _ = write!(out, "(loop {} ", hex(variable));
+                dump_expr(max, out);
+                out.push(' ');
+                dump_stmts(inner, out);
+                out.push(')');
+            }
+            Stmt::While { condition, inner } => {
+                out.push_str("(while ");
+                dump_expr(condition, out);
+                out.push(' ');
+                dump_stmts(inner, out);
+                out.push(')');
+            }
+            Stmt::ResetRandom => out.push_str("(reset)"),
+        }
+    }
+    out.push(']');
+}
+
+pub(crate) fn dump_named_spans(list: &[(String, logos::Span)], out: &mut String) {
+    out.push('[');
+    for (i, (name, span)) in list.iter().enumerate() {
+        if i > 0 {
+            out.push(' ');
+        }
+        let _ = write!(out, "({} {} {})", hex(name), span.start, span.end);
+    }
+    out.push(']');
+}
+
+fn dump_indices(list: &[EntryIndex], out: &mut String) {
+    out.push('[');
+    for (i, index) in list.iter().enumerate() {
+        if i > 0 {
+            out.push(' ');
+        }
+        match index {
+            EntryIndex::Entry {
+                entry_index,
+                signal_index,
+            } => {
+                let _ = write!(out, "(e {entry_index} {signal_index})");
+            }
+            EntryIndex::Default { signal_index } => {
+                let _ = write!(out, "(d {signal_index})");
+            }
+        }
+    }
+    out.push(']');
+}
+
+/// Canonical dump of the private parts of a bound test case
+pub fn dump_test_case(tc: &TestCase) -> String {
+    let mut out = String::new();
+    out.push_str("stmts=");
+    dump_stmts(&tc.stmts, &mut out);
+    out.push_str(" in=");
+    dump_indices(&tc.input_indices, &mut out);
+    out.push_str(" exp=");
+    dump_indices(&tc.expected_indices, &mut out);
+    let _ = write!(out, " reads={:?}", tc.read_outputs);
+    out.push_str(" virt=[");
+    let mut first = true;
+    for s in &tc.signals {
+        if let crate::SignalType::Virtual { expr } = &s.typ {
+            if !first {
+                out.push(' ');
+            }
+            first = false;
+            let _ = write!(out, "({} ", hex(&s.name));
+            dump_expr(&expr.expr, &mut out);
+            out.push(')');
+        }
+    }
+    out.push(']');
+    out
+}
